@@ -312,3 +312,11 @@ PROPS["C03"]["monitor_tags"] = ["C03"]
 PROPS["C03"]["go_tests"] = ["TestVerifExpiry", "TestVerifStore", "TestVerifTickerStall"]
 PROPS["C03"]["impl_only_traces"] = ["tickerstall"]
 PROPS["C03"]["rule"] += "; plus the real ticker goroutine: the policy lock is held by the harness for 2.5 s of real time while the virtual clock jumps 40 s past a 31 s deadline, then Get must miss"
+
+
+# the public wrappers and builders of the root package (cache.go, builder.go): every cache kind against a plain oracle
+for _p in ("C01", "C03", "C06", "C13", "C14", "C16"):
+    PROPS[_p]["go_tests_root"] = list(PROPS[_p].get("go_tests_root", [])) + ["TestVerifRootAPI"]
+    PROPS[_p]["impl_only_traces"] = list(PROPS[_p].get("impl_only_traces", [])) + ["rootapi"]
+    PROPS[_p]["rule"] += ("; plus the public API of the root package (plain, Cost function, entry pool, Doorkeeper, both loading builders, HybridCache and both "
+                          "HybridLoadingCache builder orders) driven against a plain oracle in regimes that do not depend on the eviction policy, under a virtual clock")
